@@ -92,6 +92,9 @@ func (r *Run) Chooser() simrt.Chooser {
 func (r *Run) Fail(kind string, format string, args ...any) {
 	r.T.Helper()
 	r.T.Logf("VERIF-DETAIL kind=%s: %s", kind, fmt.Sprintf(format, args...))
+	if os.Getenv("VERIF_DEBUG") != "" { // every failing run, not only rapid's final logged one (for chasing flakiness in the harness)
+		fmt.Fprintf(os.Stderr, "VERIF-DEBUG kind=%s: %.1500s\n", kind, fmt.Sprintf(format, args...))
+	}
 	r.T.Fatalf("VERIF-FAIL kind=%s", kind)
 }
 
